@@ -1466,3 +1466,46 @@ def deciders(cfg, a_blocks, b_blocks):
         if len(set(labs.values())) > 1:
             out.append((sb, labs))
     return out
+
+
+def sccs(edges, nodes=None):
+    """Tarjan (iterative). edges: node -> iterable of nodes. Returns list of components (lists)."""
+    index = {}
+    low = {}
+    onstack = set()
+    stack = []
+    out = []
+    counter = [0]
+    nodes = list(edges.keys()) if nodes is None else list(nodes)
+    for root in nodes:
+        if root in index:
+            continue
+        work = [(root, iter(edges.get(root, ())))]
+        index[root] = low[root] = counter[0]; counter[0] += 1
+        stack.append(root); onstack.add(root)
+        while work:
+            v, it = work[-1]
+            advanced = False
+            for w in it:
+                if w not in index:
+                    index[w] = low[w] = counter[0]; counter[0] += 1
+                    stack.append(w); onstack.add(w)
+                    work.append((w, iter(edges.get(w, ()))))
+                    advanced = True
+                    break
+                elif w in onstack:
+                    low[v] = min(low[v], index[w])
+            if advanced:
+                continue
+            work.pop()
+            if work:
+                u = work[-1][0]
+                low[u] = min(low[u], low[v])
+            if low[v] == index[v]:
+                comp = []
+                while True:
+                    w = stack.pop(); onstack.discard(w); comp.append(w)
+                    if w == v:
+                        break
+                out.append(comp)
+    return out
